@@ -20,6 +20,8 @@ Check(e) ==
   /\ Report(~e.md_ok \/ e.md_text, <<"BAD", "markdown-is-not-text", l>>)
   /\ Report(e.json = e.json2 /\ e.md = e.md2, <<"BAD", "second-serialisation-differs", l>>)
   /\ Report(~e.rt_ok \/ (e.rt_json = e.json /\ e.rt_md = e.md), <<"BAD", "round-tripped-object-renders-differently", l>>)
+  \* ... and an object the library's own == calls equal to this one although a field was given another value
+  /\ Report(~e.eq_base \/ (e.base_json = e.json /\ e.base_md = e.md), <<"BAD", "equal-objects-render-differently", l>>)
   /\ Report(e.env = 0 \/ ref[e.oid] = <<"-", "-", "-">> \/ (ref[e.oid][1] = e.json /\ ref[e.oid][2] = e.md),
             <<"BAD", "output-depends-on-process-history-or-hash-seed", l>>)
   \* rendering under an application-installed text encoder: the same text whether that encoder was installed before or
